@@ -212,7 +212,13 @@ def r18_3_single_line_text(ctx):
         except Raised:
             acc = False
         ctx.check(acc == want, "R18.3", f"CommentExpr({text!r})", f"CommentExpr({text!r}) is {'accepted' if acc else 'refused'}", init.where, fact={})
-    ctx.require_min("R18.3", 15)
+    # the comment op is no instruction: the final version / mode sweep must let it pass in every program
+    from sa.tables import op_table
+
+    row = op_table(ctx.model).get("comment")
+    q.need(row is not None, "Op.comment vanished from the op table")
+    ctx.check(row["teal"] == "//" and set(row["modes"]) == {"S", "A"} and row["v"] <= 2, "R18.3", "Op.comment:table-row", f"the comment op is declared as {row['teal']!r}, modes {row['modes']}, min version {row['v']}: a comment must be allowed in both modes from the lowest program version, otherwise adding one makes a program fail the final sweep", f"pyteal/ir/ops.py:{row['line']}", fact=dict(row))
+    ctx.require_min("R18.3", 16)
 
 
 def _range_structure(s: str):
